@@ -30,7 +30,15 @@ type fakeListener struct {
 	closed   bool
 	spurious int // connections handed out after close (buggy-listener variant)
 	handed   int
+	tempErrs int // transient (Temporary) errors handed out before the next connection while open
 }
+
+// tempErr is a transient accept error (ECONNABORTED-like).
+type tempErr struct{}
+
+func (tempErr) Error() string   { return "fake transient accept error" }
+func (tempErr) Timeout() bool   { return false }
+func (tempErr) Temporary() bool { return true }
 
 func (l *fakeListener) Accept() (net.Conn, error) {
 	vsched.Yield()
@@ -40,6 +48,10 @@ func (l *fakeListener) Accept() (net.Conn, error) {
 			return &fakeConn{}, nil
 		}
 		return nil, errInnerClosed
+	}
+	if l.tempErrs > 0 {
+		l.tempErrs--
+		return nil, tempErr{}
 	}
 	l.handed++
 	return &fakeConn{}, nil
@@ -58,6 +70,7 @@ type mon struct {
 	done       int
 	accepted   int
 	refused    int
+	transient  int
 	innerBuggy bool // the inner listener hands out a connection after its own Close
 }
 
@@ -72,6 +85,15 @@ func (m *mon) failf(sig, f string, a ...any) {
 func (m *mon) acceptCloseTwice(who string) {
 	afterClose := m.closedDone
 	c, err := m.ll.Accept()
+	for tries := 0; err != nil && tries < 3; tries++ {
+		// a caller retries after a transient error, as net/http's Serve loop does
+		if ne, ok := err.(net.Error); !ok || !ne.Temporary() {
+			break
+		}
+		m.transient++
+		afterClose = m.closedDone
+		c, err = m.ll.Accept()
+	}
 	if err != nil {
 		m.refused++
 		return
@@ -110,7 +132,7 @@ func (m *mon) judge(o vsched.Outcome, threads int) vsched.Verdict {
 	if got := m.ll.sem.Len(); got != m.open {
 		return vsched.Verdict{Sig: "C58/slots-not-released-exactly-once", What: fmt.Sprintf("all threads finished with %d connections open but the semaphore holds %d slots (accepted %d)", m.open, got, m.accepted), Obs: "fail"}
 	}
-	return vsched.Verdict{Obs: fmt.Sprintf("accepted=%d refused=%d maxopen=%d", m.accepted, m.refused, m.maxOpen)}
+	return vsched.Verdict{Obs: fmt.Sprintf("accepted=%d refused=%d transient=%d maxopen=%d", m.accepted, m.refused, m.transient, m.maxOpen)}
 }
 
 func programs(thorough bool) []vsched.Program {
@@ -120,6 +142,7 @@ func programs(thorough bool) []vsched.Program {
 		closer              bool
 		spurious            int
 		lateAcceptor        bool
+		tempErrs            int
 	}
 	cfgs := []cfg{
 		{n: 1, acceptors: 2, iters: 1},
@@ -129,6 +152,9 @@ func programs(thorough bool) []vsched.Program {
 		{n: 2, acceptors: 2, iters: 1, closer: true},
 		{n: 1, acceptors: 2, iters: 1, closer: true, spurious: 1},
 		{n: 1, acceptors: 1, iters: 1, closer: true, lateAcceptor: true},
+		{n: 1, acceptors: 2, iters: 1, tempErrs: 1},
+		{n: 2, acceptors: 3, iters: 1, tempErrs: 1},
+		{n: 1, acceptors: 2, iters: 1, closer: true, tempErrs: 1},
 	}
 	if thorough {
 		cfgs = append(cfgs,
@@ -136,13 +162,15 @@ func programs(thorough bool) []vsched.Program {
 			cfg{n: 1, acceptors: 3, iters: 1, closer: true},
 			cfg{n: 2, acceptors: 3, iters: 1, closer: true, spurious: 1},
 			cfg{n: 1, acceptors: 2, iters: 2, closer: true, lateAcceptor: true},
+			cfg{n: 2, acceptors: 3, iters: 1, tempErrs: 2},
+			cfg{n: 1, acceptors: 2, iters: 2, tempErrs: 2},
 		)
 	}
 	for _, k := range cfgs {
 		k := k
-		name := fmt.Sprintf("L/n=%d/acceptors=%d/iters=%d/closer=%v/spurious=%d/late=%v", k.n, k.acceptors, k.iters, k.closer, k.spurious, k.lateAcceptor)
+		name := fmt.Sprintf("L/n=%d/acceptors=%d/iters=%d/closer=%v/spurious=%d/late=%v/temperrs=%d", k.n, k.acceptors, k.iters, k.closer, k.spurious, k.lateAcceptor, k.tempErrs)
 		ps = append(ps, vsched.Program{Name: name, MaxSteps: 800, Body: func() func(vsched.Outcome) vsched.Verdict {
-			inner := &fakeListener{spurious: k.spurious}
+			inner := &fakeListener{spurious: k.spurious, tempErrs: k.tempErrs}
 			ll := LimitListener(inner, k.n).(*limitListener)
 			m := &mon{n: k.n, ll: ll, innerBuggy: k.spurious > 0}
 			threads := 0
@@ -184,7 +212,7 @@ func programs(thorough bool) []vsched.Program {
 func TestVerif_C58(t *testing.T) {
 	vx.Run(t, "C58", func(c *vx.Ctx) {
 		bounds := vx.Pick(c, []int{2}, []int{3, -1})
-		c.Rule("every schedule with at most B preemptions (quick B=2; thorough: B=3, then unbounded, the largest completed bound per program is recorded) of acceptor/closer programs over the instrumented netutil.LimitListener (n in {1,2}; 1-3 acceptors each Accept -> Close -> Close; optional Listener.Close incl. repeated, a late Accept after Close returned, and an inner listener that hands out a spurious connection after close); scheduling point before every channel operation/select/Once and inside the fake listener and connection; evaluations = complete executions")
+		c.Rule("every schedule with at most B preemptions (quick B=2; thorough: B=3, then unbounded, the largest completed bound per program is recorded) of acceptor/closer programs over the instrumented netutil.LimitListener (n in {1,2}; 1-3 acceptors each Accept -> Close -> Close; optional Listener.Close incl. repeated, a late Accept after Close returned, an inner listener that hands out a spurious connection after close, and an inner listener whose Accept fails with transient (Temporary) errors before delivering a connection, after which the acceptor retries); scheduling point before every channel operation/select/Once and inside the fake listener and connection; evaluations = complete executions")
 		c.Assume("in the variant whose inner listener hands out a spurious connection after its own Close (the situation listen.go comments on), 'Accept after Close returns an error' is not asserted — the wrapper cannot know better than its inner listener when select picks the free slot — only the limit, slot accounting and absence of blocking are")
 		c.Assume("a connection counts as closed from the moment its Close is called; synchronisation-operation granularity (L3)")
 		vsched.RunBounds(c, "sched", programs(!c.Quick()), bounds)
